@@ -262,6 +262,26 @@ both('t_mac_core', MC,
       'a(x), b(x, x) <-- edge(x, _)',
       'a(x) <-- edge(x, _), p(x, _)',
       'a(w) <-- k(w), p(w, w1), let w2 = w1 + 1, if w2 > 3'], tags=['twin'])
+# nested macros: a macro-local variable that occurs only inside the arguments of nested invocations, three levels, under a disjunction
+MACN = ['macro e1($a: expr, $b: expr) { edge($a, $b) }',
+        'macro hop2n($a: expr, $c: expr) { e1!($a, mid), e1!(mid, $c) }',
+        'macro hop4n($a: expr, $c: expr) { hop2n!($a, mid4), hop2n!(mid4, $c) }',
+        'macro hopk($a: expr, $c: expr) { hop2n!($a, w), k(w), e1!(w, $c) }']
+both('t_macn_sugar', MC, [], body=['pub struct P;'] + [d + ';' for d in MC] + MACN + [
+     'r(x, z) <-- hop2n!(x, y), hop2n!(y, z);',
+     'r(mid, z) <-- k(mid), hop2n!(mid, z);',
+     'r(x, z) <-- hop4n!(x, z), k(z);',
+     'r(x, z) <-- (hop2n!(x, y) | e1!(x, y)), hop2n!(y, z), k(x);',
+     'r(mid4, w) <-- p(mid4, w), hop4n!(mid4, w);',
+     'b(x, z) <-- hopk!(x, y), hopk!(y, z);'], tags=['twin'], twin=('t_macn_core', 'L'))
+both('t_macn_core', MC,
+     ['r(x, z) <-- edge(x, m1), edge(m1, y), edge(y, m2), edge(m2, z)',
+      'r(mid, z) <-- k(mid), edge(mid, m1), edge(m1, z)',
+      'r(x, z) <-- edge(x, m1), edge(m1, m4), edge(m4, m2), edge(m2, z), k(z)',
+      'r(x, z) <-- edge(x, m1), edge(m1, y), edge(y, m2), edge(m2, z), k(x)',
+      'r(x, z) <-- edge(x, y), edge(y, m2), edge(m2, z), k(x)',
+      'r(mid4, w) <-- p(mid4, w), edge(mid4, m1), edge(m1, m4), edge(m4, m2), edge(m2, w)',
+      'b(x, z) <-- edge(x, m1), edge(m1, w1), k(w1), edge(w1, y), edge(y, m2), edge(m2, w2), k(w2), edge(w2, z)'], tags=['twin'])
 # ---- S-level: permutations / renamings (both sides are translation-validated; their specs are equal as sets)
 both('t_perm_rules', [E2, 'relation path(i32, i32)'], ['path(x, z) <-- edge(x, y), path(y, z)', 'path(x, y) <-- edge(x, y)'],
      tags=['twin'], twin=('tc_lin', 'L'))
